@@ -13,7 +13,7 @@ get_depth / is_ancestor / calculated xpath agree with the chain of actual positi
 from __future__ import annotations
 
 from ..core import Rec
-from ..explore import explore
+from ..explore import explore, judged_step
 from ..legacy_model import Model
 
 PID = "C18"
@@ -62,5 +62,5 @@ def replay(case, cfg):
     for op in hist[:-1]:
         if m.apply(w, op, None, None) != "ok":
             return []
-    m.apply(w, hist[-1], rec, tuple(hist[:-1]))
+    judged_step(m, w, hist[-1], rec, tuple(hist[:-1]), cfg)
     return rec.result()["violations"]
